@@ -14,6 +14,16 @@ class StringV:
     def __repr__(self):
         return f"StringV({self.value})"
 
+    def __eq__(self, other):
+        # value equality: the generic == / != dispatch of the backend compares these objects
+        return isinstance(other, StringV) and self.value == other.value
+
+    def __ne__(self, other):
+        return not self == other
+
+    def __hash__(self):
+        return hash(self.value)
+
 
 def StrConcat(*args):
     """
@@ -121,6 +131,9 @@ def StrIndexOf(input_string, substring, startIndex):
         s = input_string.value
         t = substring.value
         i = startIndex.value
+        if i > len(s):
+            # no position at or after a start index beyond the end (not even for the empty pattern)
+            return BVV(-1, 64)
         return BVV(i + s[i:].index(t), 64)
     except ValueError:
         return BVV(-1, 64)
@@ -135,10 +148,12 @@ def StrToInt(input_string):
     :return BV:                     bitvector of the integer resulting from the string or -1 in
                                     bitvector if the string cannot be transformed into an integer
     """
-    try:
-        return BVV(int(input_string.value), 64)
-    except ValueError:
-        return BVV(-1, 64)
+    # SMT-LIB str.to_int: a non-empty string of the digits 0-9, else -1 (Python's int() also accepts signs,
+    # blanks, underscores and non-ASCII digits)
+    s = input_string.value
+    if s and all(c in "0123456789" for c in s):
+        return BVV(int(s), 64)
+    return BVV(-1, 64)
 
 
 def StrIsDigit(input_string):
